@@ -1,0 +1,51 @@
+//go:build verif
+
+// Contracts (machine-checked by /verif/engine, see /verif/DESIGN.md). Comment-only file.
+package connectutil
+
+// ---- C41: Connect session principal fields --------------------------------------------------------------
+
+// The two helper closures record that a principal field was seen.
+//@ func ExtractSessionPrincipalWire$1
+//@   props C41
+//@   modifies *dst, *&found
+//@   ensures [marks-found] found && streq(*dst, v)
+//@ func ExtractSessionPrincipalWire$2
+//@   props C41
+//@   modifies *&found, fields(SessionPrincipalWire, Protocol, SourceProtocolVersion, PolicyRevision)
+//@   at-call dyn.dst as set: assert arg0 == v
+//@   ensures [marks-found] found
+//@   ensures [value-passed-on] called(set)
+
+// Scalar setters of the unknown-field region: int32 fields keep the truncated varint, the revision the full value.
+//@ func ExtractSessionPrincipalWire$6
+//@   props C41
+//@   ensures [protocol-truncated] w.Protocol == int32(i)
+//@ func ExtractSessionPrincipalWire$7
+//@   props C41
+//@   ensures [source-version-truncated] w.SourceProtocolVersion == int32(i)
+//@ func ExtractSessionPrincipalWire$8
+//@   props C41
+//@   ensures [policy-revision] w.PolicyRevision == i
+
+// Unknown-field region (loop 2): every buffer access stays in bounds; a field numbered 6..12 is never skipped and is only
+// consumed with its own wire type (strings/bytes: 2, varints: 0), otherwise the proposal is rejected; a second, empty or
+// oversized envelope is rejected; every consumed principal field marks the proposal as carrying principal data (so it can
+// never be reported as "no principal"); with an envelope the nonce must be exactly 16 bytes.
+//@ func ExtractSessionPrincipalWire
+//@   props C41
+//@   at-call ConsumeTag as tag
+//@   at-call ConsumeFieldValue as skip: assert [skip-only-foreign-fields] !(num >= 6 && num <= 12)
+//@   at-call ConsumeBytes as cb: assert [bytes-fields-bytes-type] (num == 7 || num == 8 || num == 9 || num == 12) && typ == 2
+//@   at-call ConsumeVarint as cv: assert [varint-fields-varint-type] (num == 6 || num == 10 || num == 11) && typ == 0
+//@   at-call ExtractSessionPrincipalWire$1 as setstr
+//@   at-call ExtractSessionPrincipalWire$2 as setint
+//@   at-store found: assert [found-monotone] value || !found
+//@   loop 1: invariant rangeindex >= -1 && rangeindex < 7 && w != nil
+//@   loop 2: invariant w != nil
+//@   at-store Envelope: assert [one-valid-envelope] (called(cb) ==> !haveEnvelope && len(value) > 0 && len(value) <= bedrockprincipal.MaxEnvelopeBytes)
+//@   loop 2: invariant [principal-field-marks-found] ((called(cb) && res(cb, 1) >= 0) || (called(cv) && res(cv, 1) >= 0)) ==> found
+//@   ensures [nil-session] s == nil ==> result.0 == nil && result.1 == nil
+//@   ensures [never-both] !(result.0 != nil && result.1 != nil)
+//@   ensures [no-principal-only-if-none-seen] s != nil && result.0 == nil && result.1 == nil ==> !found
+//@   ensures [envelope-needs-16-byte-nonce] result.0 != nil && haveEnvelope ==> len(nonce) == 16
